@@ -255,3 +255,100 @@ SPEC = PropSpec(
     real_replay=real_replay,
     technique="CrossHair/z3 bounded symbolic execution: one inductive step over an arbitrary registry",
 )
+
+
+# ---------------------------------------------------------------------------------------------
+# two threads: another thread registers a worker while active_children() is polling liveness
+class SimLock:
+    """threading.Lock for the simulation (the real lock would block the OS thread that holds the baton)."""
+
+    def __init__(self):
+        self.owner = None
+
+    def acquire(self, blocking=True, timeout=-1):
+        from .. import sim as simmod
+        s = simmod.cur()
+        s.block(lambda: self.owner is None, None, what="Lock.acquire")
+        self.owner = s.me()
+        return True
+
+    def release(self):
+        self.owner = None
+
+    def __enter__(self):
+        self.acquire()
+        return self
+
+    def __exit__(self, *a):
+        self.release()
+
+
+def h_conc(n, a0, a1, a2, a3, j, bop):
+    """Actor B creates (bop=0) or restarts-and-revives (bop=1) a worker at the moment actor A's
+    active_children() makes its j-th liveness poll."""
+    from .. import sim as simmod, vos
+    with notrace():
+        n_, j_, bop_ = conc(n, 5), conc(j, 5), conc(bop, 2)
+        alive = [a0, a1, a2, a3][:n_]
+        _reset()
+        s = simmod.new_sim()
+        real_lock = Worker._children_lock
+        type.__setattr__(Worker, "_children_lock", SimLock())
+        polls = [0]
+        created = []
+
+        class CW(SW):
+            def is_alive(self_w):
+                if s.me() is s.main and polling[0]:
+                    i = polls[0]
+                    polls[0] += 1
+                    if i == j_:
+                        s.yield_()
+                return SW.is_alive(self_w)
+        polling = [False]
+        try:
+            workers = [CW(True, run=True) for _ in range(n_)]
+            for i in range(n_):
+                if sym_eq(alive[i], 0):
+                    workers[i]._alive = False
+
+            def other():
+                if bop_ == 0:
+                    created.append(CW(True, run=True))
+                elif workers:
+                    w = workers[0]
+                    w._alive = True          # a dead persistent worker coming back through restart() is not re-registered:
+                    created.append(None)     # only meaningful if it was still registered; kept for the thorough tier
+            b = s.spawn(other, "other-thread")
+            b.priority = 1                   # runs only when the main actor yields or blocks
+            ev("conc", n_, j_, bop_)
+            polling[0] = True
+            try:
+                first = list(Worker.active_children())
+            except vos.Hang:
+                return Outcome("c19.conc.active_children-deadlocks", True)
+            polling[0] = False
+            s.block(lambda: b.state == "done", 5, what="other-thread-done")
+            allw = workers + [w for w in created if w is not None]
+            sig = _check_view(allw, "c19.conc.view")
+            return Outcome(sig, polls[0] > j_)
+        finally:
+            type.__setattr__(Worker, "_children_lock", real_lock)
+            errs = s.shutdown()
+            simmod.CUR[0] = None
+            _reset()
+            if errs:
+                raise RuntimeError("simulation kernel errors: %r" % (errs,))
+
+
+H_CONC = Harness(
+    "conc", "vf.props.c19:h_conc",
+    OrderedDict([("n", (0, 4))] + [("a%d" % i, (0, 1)) for i in range(4)] + [("j", (0, 4)), ("bop", (0, 1))]),
+    tiers={"quick": {"fixed": {"bop": 0}, "partition": ["n"], "timeout": 120, "twin_fixed": {"n": 2}},
+           "thorough": {"partition": ["n", "bop"], "timeout": 300, "twin_fixed": {"n": 2, "bop": 0}}},
+    functions=["pyworkers.worker:Worker.active_children", "pyworkers.worker:Worker.register_child", "pyworkers.worker:Worker.__init__"],
+)
+SPEC.harnesses.append(H_CONC)
+SPEC.assumptions.append("harness 'conc': a second thread (an actor of vf/sim.py) registers a new worker at the moment active_children() makes its j-th liveness "
+                        "poll; Worker._children_lock is replaced by a simulation-aware lock with the same semantics")
+SPEC.outside[:] = ["more than two threads; interleavings finer than 'between two liveness polls'", "histories are covered by one inductive step, not unrolled"]
